@@ -3,6 +3,8 @@ mod backends_impl;
 mod create;
 mod linspace;
 mod vec_core;
+#[cfg(feature = "verif-hooks")]
+pub mod verif_hooks;
 
 pub mod export;
 
